@@ -356,6 +356,17 @@ def run_case(case, ctx):
             _try(lambda: np.array(small3, dtype=np.uint64) | xa_)
             _try(lambda: xa_ ^ np.array([-1, 1, -3], dtype=np.int8))
             _try(lambda: xa_ | np.array([[1, 2, 3], small3]))
+            # operands whose codes are not stored row-major (a transposed matrix, a Fortran-ordered input): ~ and scalar operands go element by element
+            if w <= 63:
+                m6 = [a, lox, hix, b if lox <= b <= hix else 0, 0, (lox + hix) // 2]
+                xt_ = _try(lambda: Fxp(np.array(m6).reshape(2, 3), sx, w, nf, raw=True).T)
+                xf_ = _try(lambda: Fxp(np.asfortranarray(np.array(m6).reshape(2, 3)), sx, w, nf, raw=True))
+                for xo_ in (xt_, xf_):
+                    if xo_ is not None:
+                        _try(lambda: ~xo_)
+                        _try(lambda: xo_ & mk)
+                        _try(lambda: mk ^ xo_)
+                        _try(lambda: xo_ | y)
             _try(lambda: xa_ & (mk, 1, 3))                  # a tuple of masks
             _try(lambda: (1, mk, -1) | xa_)
             if w >= 64:
